@@ -125,7 +125,7 @@ func verifC10_harmless() {
 	before := len(t.out)
 	vAssert(c.Write(vBG, MessageText, []byte("z")) == nil, "C10.harmless.later-write-ok")
 	vAssert(len(t.out) > before, "C10.harmless.later-write-on-wire")
-	vAssert(vGhostElapsed() < 3*time.Second, "C10.harmless.no-waiting")
+	vAssert(vGhostElapsed() < 3*time.Second+vSlack(), "C10.harmless.no-waiting")
 	c.CloseNow()
 	if bg {
 		<-readerDone
@@ -213,7 +213,7 @@ func verifC10_cancel() {
 	took := vGhostElapsed() - start
 	vReach("C10.cancel.returned")
 	vAssert(err != nil, "C10.cancel.error")
-	vAssert(vAnd(took >= time.Second, took < 2*time.Second), "C10.cancel.prompt")
+	vAssert(vAnd(took >= time.Second-50*time.Millisecond, took < 2*time.Second+vSlack()), "C10.cancel.prompt")
 	vGhostSettle()
 	vAssert(vNot(vIsOpen(c)), "C10.cancel.closed")
 	cancel()
